@@ -10,6 +10,7 @@ pub mod c03;
 pub mod c04;
 pub mod c05;
 pub mod c06;
+pub mod c07;
 pub mod c11;
 pub mod c12;
 pub mod c13;
@@ -22,6 +23,7 @@ pub fn registry() -> Vec<&'static macros::Entry> {
     v.extend(c04::registry());
     v.extend(c05::registry());
     v.extend(c06::registry());
+    v.extend(c07::registry());
     v.extend(c11::registry());
     v.extend(c12::registry());
     v.extend(c13::registry());
